@@ -195,10 +195,16 @@ func execute(sc Scenario, rng *rand.Rand) (rec, error) {
 		kk := k
 		opts = append(opts, res.Auth(m, func(r res.AuthRequest) { handler(kk)(r.(*res.Request)) }))
 	}
+	// in every other scenario a failing apply handler does not return an error but panics - with nil
+	failNil := (len(sc.Script)+sc.Nl+sc.Name)%2 == 1
 	applyLog := func(ev string) string {
 		rn.mu.Lock()
 		defer rn.mu.Unlock()
 		rn.log = append(rn.log, []interface{}{"apply", ev, rn.step})
+		if sc.Ap[ev] == "fail" && failNil {
+			var v interface{}
+			panic(v)
+		}
 		return sc.Ap[ev]
 	}
 	if sc.Ap["change"] != "absent" {
